@@ -1,14 +1,14 @@
-(* Extraction of the C06 model (Refl/Server.v + Refl/IsoModel.v) for the correspondence run (ExtrOcamlBasic only). *)
+(* Extraction of the C06 model (Refl/Server.v + Refl/IsoModel.v + Refl/IsoOrd.v) for the correspondence run (ExtrOcamlBasic only). *)
 From Coq Require Import ExtrOcamlBasic.
 From Coq Require Extraction.
 From Coq Require Import NArith ZArith List.
-From Muscle Require Import Gen.Consts Refl.Base Refl.Tree Refl.Matcher Refl.Traverse Refl.Session Refl.Server Refl.IsoModel.
+From Muscle Require Import Gen.Consts Refl.Base Refl.Tree Refl.Matcher Refl.Traverse Refl.Session Refl.Server Refl.IsoModel Refl.IsoOrd.
 Definition dump_fuel : nat := S (N.to_nat c_MUSCLE_MAX_NODE_DEPTH).
 (* the code as it is in the sources at hand: each repair is on iff its as-found text is gone *)
 Definition head_fixes : fixes :=
   mkFixes (N.eqb c_c06_guard_as_found 0) (N.eqb c_c06_cqf_as_found 0) (N.eqb c_c06_push_as_found 0).
-Extraction "iso_model.ml" xstep xclear empty_xserver head_fixes all_fixed as_found dfs dump_fuel sv_tree sv_sessions
+Extraction "iso_model.ml" xstep xclear empty_xserver ostep oclear empty_oserver o_x o_idx o_ctr idx_get head_fixes all_fixed as_found dfs dump_fuel sv_tree sv_sessions
   xs_sv xs_priv xs_log xs_ducks priv_get matches_path session_dir
-  c_PR_COMMAND_KICK c_PR_COMMAND_ADDBANS c_PR_COMMAND_REMOVEBANS c_PR_COMMAND_ADDREQUIRES c_PR_COMMAND_REMOVEREQUIRES
+  c_PR_COMMAND_INSERTORDEREDDATA c_PR_COMMAND_KICK c_PR_COMMAND_ADDBANS c_PR_COMMAND_REMOVEBANS c_PR_COMMAND_ADDREQUIRES c_PR_COMMAND_REMOVEREQUIRES
   c_PR_COMMAND_PING c_PR_COMMAND_NOOP c_PR_COMMAND_GETPARAMETERS c_PR_COMMAND_GETDATATREES c_PR_COMMAND_SETDATATREES
   c_PR_COMMAND_JETTISONRESULTS c_PR_COMMAND_JETTISONDATATREES c_END_PR_COMMANDS c_BEGIN_PR_COMMANDS.
